@@ -318,8 +318,11 @@ Fixpoint seek_tensors (al : Z) (pos : Z) (ts : list tinfo) : option Z :=
     let p1 := wrapZ64 (pos + go_pad pos al) in
     if (p1 <? 0)%Z then None
     else
-      let p2 := wrapZ64 (p1 + to_int64 (tensor_size (ti_kind t) (ti_shape t))) in
-      if (p2 <? 0)%Z then None else seek_tensors al p2 r
+      let sz := to_int64 (tensor_size (ti_kind t) (ti_shape t)) in
+      if (sz <? 0)%Z then None        (* repaired (fixes/C10-tensor-size-rewind.patch): a size above MaxInt64 is an error *)
+      else
+        let p2 := wrapZ64 (p1 + sz) in
+        if (p2 <? 0)%Z then None else seek_tensors al p2 r
   end.
 
 (** * Decode *)
@@ -370,8 +373,10 @@ Definition rd_header (maxArr : Z) : M (N * kvs * list tinfo) :=
 
 Definition total_params (ts : list tinfo) : N := fold_left (fun c t => wrap64 (c + parameters (ti_shape t))) ts 0.
 
-(** ggml.Decode(bytes.NewReader(bytes), maxArr) *)
-Definition decode (bytes : list N) (maxArr0 : Z) : D :=
+(** ggml.Decode(rs, maxArr) on a reader positioned at absolute offset [base] whose remaining content is [bytes]
+    (server/create.go ggufLayers decodes several models from one file: every Seek(0, Current) is an absolute position,
+    so paddings are computed on absolute offsets) *)
+Definition decode_from (base : Z) (bytes : list N) (maxArr0 : Z) : D :=
   let maxArr := if (maxArr0 =? 0)%Z then 1024%Z else maxArr0 in
   match rd_header maxArr bytes with
   | RErr e al => DErr e (base_alloc + al)
@@ -379,20 +384,23 @@ Definition decode (bytes : list N) (maxArr0 : Z) : D :=
   | ROk (ver, kv0, ts) rest al =>
     let al := base_alloc + al in
     let kv := (k_param_count, VNum 10 (total_params ts)) :: kv0 in
-    let a := Z.of_N (kv_uint val_u32 kv k_alignment 32) in
+    let a := Z.of_N (kv_uint val_u32 kv k_alignment 32 mod two32) in   (* alignment is a uint32 *)
     if (a =? 0)%Z then DErr EAlign al            (* repaired: alignment 0 is an error *)
     else
-      let pos := Z.of_nat (length bytes - length rest) in
+      let pos := (base + Z.of_nat (length bytes - length rest))%Z in
       match go_pad_p pos a with
       | None => DPanic PDivZero al
       | Some pad =>
-        let toff := wrap64 (Z.to_N (pos + pad)) in
+        let toff := wrap64 (Z.to_N ((pos + pad) mod Z.of_N two64)) in
         match seek_tensors a pos ts with
         | None => DErr ESeek al
         | Some e => DOk (mkD ver kv ts toff e) al
         end
       end
   end.
+
+(** ggml.Decode(bytes.NewReader(bytes), maxArr) *)
+Definition decode (bytes : list N) (maxArr0 : Z) : D := decode_from 0 bytes maxArr0.
 
 Definition d_alloc (r : D) : N := match r with DOk _ al | DErr _ al | DPanic _ al => al end.
 
